@@ -90,7 +90,25 @@ def symbol_block_alternative_unwritable():
     return f"an inline SYMBOL block in STYLE is stored under {[k for k in d.keys() if k != '__type__']} (the parent schema lists symbol.json under 'symbol')"
 
 
+def cr_in_string_value():
+    import os
+    import tempfile
+    import mappyfile
+
+    text = 'MAP\r\n  NAME "line1\r\nline2"\r\nEND\r\n'
+    fd, fn = tempfile.mkstemp(suffix=".map")
+    try:
+        with os.fdopen(fd, "wb") as f:
+            f.write(text.encode("utf-8"))
+        a = mappyfile.open(fn)["name"]
+        b = mappyfile.loads(text)["name"]
+    finally:
+        os.remove(fn)
+    return None if a == b else f"open(path) gives {a!r}, loads(the same UTF-8 content) gives {b!r}"
+
+
 REPRO = {
+    "cr-in-string-value": cr_in_string_value,
     "label-backgroundshadowsize-schema": label_backgroundshadowsize_schema,
     "symbol-block-alternative-unwritable": symbol_block_alternative_unwritable,
     "unquoted-absolute-path-lexed-as-regex": unquoted_absolute_path_lexed_as_regex,
